@@ -123,6 +123,19 @@ func (c *Case) Failf(sig string, format string, a ...any) {
 	panic("unreachable")
 }
 
+// Excluded reports an occurrence of a finding and says whether it is listed in the
+// known-findings file. If it is, the occurrence is counted and the caller goes on with
+// the rest of the case (the finding is excluded by construction so that the search
+// continues behind it); if it is not, the case fails like with Failf.
+func (c *Case) Excluded(sig string, format string, a ...any) bool {
+	if isKnown(sig) {
+		c.st.known(sig, fmt.Sprintf(format, a...))
+		return true
+	}
+	c.Failf(sig, format, a...)
+	return false
+}
+
 func resourceTrouble(msg string) bool {
 	for _, pat := range []string{"address already in use", "too many open files", "no space left on device", "cannot allocate memory", "cannot assign requested address", "resource temporarily unavailable"} {
 		if strings.Contains(msg, pat) {
